@@ -28,9 +28,10 @@
   or `-p0`, `CreateStart`, nothing at `name` nor at the empty name, the patch file readable):
     * `s0.backedUp = []` (what `main` starts with: a backup name already in the list is not backed up again);
     * the backup name has no slash (so its directory is the working directory; a theorem for `name.orig`: `C18Run.orig_flat`);
-    * NOTHING is at the backup name (`hfree`).  The neighbouring cases are evaluated below (`Scope`): a regular file or a symbolic
-      link there is unlinked first (`make_way_for`) and the outcome is the same tree; a DIRECTORY there makes `creat` fail — exit
-      status 2, nothing created.
+    * NOTHING is at the backup name (`hfree`).  The neighbouring cases: a regular file or a symbolic link there is unlinked first
+      (`make_way_for`) and the outcome is the same tree — `C18_run_create_backup_taken_of_lines` / `C18_run_create_backup_taken`
+      (`hl`, `RunCrB.InWay n` in place of `hfree`; the trace has `unlink backup` in front of `creat backup`); a DIRECTORY there makes
+      `creat` fail — exit status 2, nothing created (evaluated below, `Scope`; no theorem).
     * NOT needed: `backupName o name ≠ name` (a theorem, `RunB.backupName_ne`); root (the patch file readable is enough: `hread`).
 -/
 import PatchModel.Props.C01RunCreate
@@ -150,6 +151,57 @@ theorem C18_run_create_backup_of_lines (ho : CreateOptsB o pname) (hb : o.saveBa
   · show s'.backedUp = _
     rw [hbk]; show s0.backedUp ++ _ = _; rw [hbu]; rfl
 
+/-- **… when a regular file or a symbolic link sits at the backup name** (`hl`, `hn` in place of `hfree`): it is unlinked first
+    (`make_way_for`: the empty backup is not written through a link, nor into a file which may have other names); the tree afterwards
+    is the same — the backup name is an EMPTY regular file, whatever was there is gone -/
+theorem C18_run_create_backup_taken_of_lines (ho : CreateOptsB o pname) (hb : o.saveBackup = true)
+    (ht : TargetRead o opath npath name) (hreal : o.dryRun = false)
+    (hs0 : CreateStart s0) (hbu : s0.backedUp = []) (hname : name ≠ []) (hdirs : DirsThere s0.fs name)
+    (hdir : s0.fs.dirExists (parentOf name) = true)
+    (hbdirs : DirsThere s0.fs (backupName o name)) (hbdir : s0.fs.dirExists (parentOf (backupName o name)) = true)
+    {n : Node} (hl : s0.fs.lookup (backupName o name) = some n) (hn : InWay n)
+    (hpn : pname ≠ []) (hpd : pname ≠ [45])
+    (habsent : s0.fs.lookup name = none) (hnoempty : o.fileToPatch = [] → s0.fs.lookup [] = none)
+    (ptext : Bytes) (hsplit : splitLines ptext = nameLines filler oldf newf (h :: hs'))
+    (hpatch : s0.fs.lookup pname = some (.file ptext pm))
+    (hread : s0.fs.isRoot = true ∨ pm / 256 % 2 = 1)
+    (hd : CreateLines o filler oldf newf opath npath h hs') (hvalid : Valid [] 0 0 (h :: hs')) :
+    (runPatch o s0).1 = 0 ∧
+    (runPatch o s0).2.fs.lookup name =
+      some (.file (Render.renderText o.newlineOutput (splice [] 0 (h :: hs'))) (0o666 - (0o666 &&& s0.fs.umask))) ∧
+    (runPatch o s0).2.fs.lookup (backupName o name) = some (.file [] (0o666 - (0o666 &&& s0.fs.umask))) ∧
+    (∀ q, q ≠ name → q ≠ backupName o name → (runPatch o s0).2.fs.lookup q = s0.fs.lookup q) ∧
+    (runPatch o s0).2.fs = (s0.fs.set (backupName o name) (.file [] (0o666 - (0o666 &&& s0.fs.umask)))).set name
+      (.file (Render.renderText o.newlineOutput (splice [] 0 (h :: hs'))) (0o666 - (0o666 &&& s0.fs.umask))) ∧
+    (runPatch o s0).2.trace = s0.trace ++ [.tmpCreate, .tmpUnlink, .tmpCreate, .tmpUnlink] ++
+      [.unlink (backupName o name), .creat (backupName o name)] ++
+      writeOps name (Render.renderText o.newlineOutput (splice [] 0 (h :: hs'))) ∧
+    (runPatch o s0).2.out = s0.out ++ [.file name false] ∧
+    (runPatch o s0).2.rejWritten = s0.rejWritten ∧ (runPatch o s0).2.backedUp = [backupName o name] := by
+  obtain ⟨patch0, info, par1, par2, r, H, hrender, heof⟩ :=
+    createSectionB_of_lines ho ht hs0 hname habsent hnoempty hd hvalid
+  obtain ⟨s', hrun, hfs, htr, hbk, hrw, hhf, hout, hdone⟩ := processSection_create_backup_taken H hb hreal hdirs hdir
+    (by show s0.backedUp.contains _ = false; rw [hbu]; rfl) hbdirs hbdir hl hn
+  have hfs' : s'.fs = (s0.fs.set (backupName o name) (.file [] (0o666 - (0o666 &&& s0.fs.umask)))).set name
+      (.file (Render.renderText o.newlineOutput (splice [] 0 (h :: hs'))) (0o666 - (0o666 &&& s0.fs.umask))) := by
+    rw [hfs, hrender]
+  have hnb : name ≠ backupName o name := fun e => backupName_ne o name e.symm
+  rw [runPatch_of_create_sectionB ho.file hs0 hpn hpd ptext _ hsplit hpatch hread s' par2 hrun hdone hhf heof]
+  refine ⟨rfl, ?_, ?_, ?_, hfs', ?_, hout, hrw, ?_⟩
+  · show s'.fs.lookup name = _
+    rw [hfs', Fs.lookup_set_self]
+  · show s'.fs.lookup (backupName o name) = _
+    rw [hfs', Fs.lookup_set_ne _ _ _ _ hnb.symm, Fs.lookup_set_self]
+  · intro q hq hqb
+    show s'.fs.lookup q = _
+    rw [hfs', Fs.lookup_set_ne _ _ _ _ hq, Fs.lookup_set_ne _ _ _ _ hqb]
+  · show s'.trace = _
+    rw [htr, hrender]
+    show s0.trace ++ _ ++ _ ++ _ ++ _ = _
+    simp
+  · show s'.backedUp = _
+    rw [hbk]; show s0.backedUp ++ _ = _; rw [hbu]; rfl
+
 /-- **C15 / C18 sibling: the same run under --dry-run, whatever `-b` says** — exit status 0, the tree untouched, no backup recorded -/
 theorem C18_run_create_backup_dry_of_lines (ho : CreateOptsB o pname) (ht : TargetRead o opath npath name) (hdry : o.dryRun = true)
     (hs0 : CreateStart s0) (hname : name ≠ []) (hpn : pname ≠ []) (hpd : pname ≠ [45])
@@ -256,6 +308,42 @@ theorem C18_run_create_backup (o : Options) (s0 : DState) (name pname : Bytes) (
   rw [e, splice_newFileHunk, Render.renderText_eq_renderLines _ _ hnew.terminated] at h
   exact h
 
+/-- **C18, end to end: a new file with plain `-b`, a regular file or a symbolic link already at `name.orig`** — it is unlinked, then as
+    `C18_run_create_backup`: `name.orig` is an EMPTY regular file (what was there is gone; what a link pointed to is untouched: it is
+    another path), `name` holds the lines `new`; the run did `unlink name.orig`, `creat name.orig`, `creat name`, `write name …` -/
+theorem C18_run_create_backup_taken (o : Options) (s0 : DState) (name pname : Bytes) (pm : Nat) (new : List Line) (n : Node)
+    (ho : CreateOptsB o pname) (hno : o.fileToPatch = []) (hb : o.saveBackup = true)
+    (hpre : o.backupPrefix = []) (hsuf : o.backupSuffix = []) (hstrip : o.strip ≤ 0)
+    (hreal : o.dryRun = false) (hs0 : CreateStart s0) (hbu : s0.backedUp = [])
+    (hn : bareFlatName name)
+    (hl : s0.fs.lookup (name ++ str ".orig") = some n) (hway : InWay n) (hpn : pname ≠ []) (hpd : pname ≠ [45])
+    (habsent : s0.fs.lookup name = none) (hnoempty : s0.fs.lookup [] = none)
+    (hpatch : s0.fs.lookup pname = some (.file (newFileBareText name new) pm))
+    (hread : s0.fs.isRoot = true ∨ pm / 256 % 2 = 1) (hnew : NewFile new) :
+    (runPatch o s0).1 = 0 ∧
+    (runPatch o s0).2.fs.lookup name = some (.file (renderLines o.newlineOutput new) (0o666 - (0o666 &&& s0.fs.umask))) ∧
+    (runPatch o s0).2.fs.lookup (name ++ str ".orig") = some (.file [] (0o666 - (0o666 &&& s0.fs.umask))) ∧
+    (∀ q, q ≠ name → q ≠ name ++ str ".orig" → (runPatch o s0).2.fs.lookup q = s0.fs.lookup q) ∧
+    (runPatch o s0).2.fs = (s0.fs.set (name ++ str ".orig") (.file [] (0o666 - (0o666 &&& s0.fs.umask)))).set name
+      (.file (renderLines o.newlineOutput new) (0o666 - (0o666 &&& s0.fs.umask))) ∧
+    (runPatch o s0).2.trace = s0.trace ++ [.tmpCreate, .tmpUnlink, .tmpCreate, .tmpUnlink] ++
+      [.unlink (name ++ str ".orig"), .creat (name ++ str ".orig")] ++ writeOps name (renderLines o.newlineOutput new) ∧
+    (runPatch o s0).2.out = s0.out ++ [.file name false] ∧
+    (runPatch o s0).2.rejWritten = s0.rejWritten ∧ (runPatch o s0).2.backedUp = [name ++ str ".orig"] := by
+  have e : backupName o name = name ++ str ".orig" := (C18.backupName_spec o name).1 hpre hsuf
+  have hbn : ∀ c ∈ backupName o name, c ≠ SLASHB := by rw [e]; exact C18Run.orig_flat hn.2.1
+  have hd : BareDiff [] devNull name (newFileHunk new) [] :=
+    { fillerInert := by simp, fillerPlain := by simp, oldName := bareName_devNull, newName := bareName_of_flat hn,
+      writable := (createHunks_newFile hnew).writable, creates := (createHunks_newFile hnew).creates }
+  have ht : TargetOf o devNull name name :=
+    Or.inr ⟨hno, rfl, flat_ne_devNull hn.2.1, stripPath_flat hn.2.1 hstrip, flat_ne_devNull hn.2.1⟩
+  have h := C18_run_create_backup_taken_of_lines (filler := []) ho hb (targetRead_of ht) hreal hs0 hbu hn.1
+    (dirsThere_flat s0.fs hn.2.1) (dirExists_parent_of_noSlash s0.fs hn.2.1) (dirsThere_flat s0.fs hbn)
+    (dirExists_parent_of_noSlash s0.fs hbn) (n := n) (by rw [e]; exact hl) hway hpn hpd
+    habsent (fun _ => hnoempty) _ (splitLines_barePatchText hd) hpatch hread (createLines_of_bare hd) (newFileHunk_valid hnew)
+  rw [e, splice_newFileHunk, Render.renderText_eq_renderLines _ _ hnew.terminated] at h
+  exact h
+
 /-- **C15 / C18 sibling: the creation under --dry-run, `-b` or not** — exit status 0, the tree untouched (nothing at `name`, nothing at
     a backup name that was free), no backup recorded -/
 theorem C18_run_create_backup_dry (o : Options) (s0 : DState) (name pname : Bytes) (pm : Nat) (new : List Line)
@@ -321,6 +409,36 @@ theorem applies_dry :
     rfl (by decide) rfl ⟨rfl, rfl, rfl, rfl, rfl⟩ (by decide) (by decide) (by decide) rfl rfl rfl (Or.inl rfl) newFile
   ⟨h.1, h.2.1, h.2.2.2.2⟩
 
+/-- a FILE already at the backup name: `C18_run_create_backup_taken` applies — it is replaced by the empty backup -/
+def sTaken : DState := { fs := { nodes := [(pname, .file (newFileBareText name new) 0o644), (orig, .file [120] 0o600)] } }
+theorem applies_taken :
+    (runPatch ob sTaken).1 = 0 ∧ (runPatch ob sTaken).2.fs.lookup name = some (.file hello 0o644) ∧
+    (runPatch ob sTaken).2.fs.lookup orig = some (.file [] 0o644) ∧
+    (runPatch ob sTaken).2.trace =
+      [.tmpCreate, .tmpUnlink, .tmpCreate, .tmpUnlink, .unlink orig, .creat orig, .creat name, .write name hello] := by
+  have h := C18_run_create_backup_taken ob sTaken name pname 0o644 new (.file [120] 0o600) createOptsB rfl rfl rfl rfl (by decide) rfl
+    ⟨rfl, rfl, rfl, rfl, rfl⟩ rfl (by decide) (by rw [orig_eq]; decide) (Or.inr ⟨_, _, rfl⟩) (by decide) (by decide) rfl rfl rfl
+    (Or.inl rfl) newFile
+  have hm : renderLines ob.newlineOutput new = hello := by decide
+  have hmode : 0o666 - (0o666 &&& sTaken.fs.umask) = 0o644 := by decide
+  rw [orig_eq, hm, hmode] at h
+  exact ⟨h.1, h.2.1, h.2.2.1, h.2.2.2.2.2.1⟩
+
+/-- a symbolic LINK at the backup name: it is replaced, what it pointed to keeps its node -/
+def sLink : DState :=
+  { fs := { nodes := [(pname, .file (newFileBareText name new) 0o644), (orig, .symlink [118]), ([118], .file [120] 0o600)] } }
+theorem applies_link :
+    (runPatch ob sLink).1 = 0 ∧ (runPatch ob sLink).2.fs.lookup orig = some (.file [] 0o644) ∧
+    (runPatch ob sLink).2.fs.lookup [118] = some (.file [120] 0o600) := by
+  have h := C18_run_create_backup_taken ob sLink name pname 0o644 new (.symlink [118]) createOptsB rfl rfl rfl rfl (by decide) rfl
+    ⟨rfl, rfl, rfl, rfl, rfl⟩ rfl (by decide) (by rw [orig_eq]; decide) (Or.inl ⟨_, rfl⟩) (by decide) (by decide) rfl rfl rfl
+    (Or.inl rfl) newFile
+  have hmode : 0o666 - (0o666 &&& sLink.fs.umask) = 0o644 := by decide
+  rw [orig_eq, hmode] at h
+  refine ⟨h.1, h.2.2.1, ?_⟩
+  rw [h.2.2.2.1 [118] (by decide) (by decide)]
+  decide
+
 -- independently: the executable model on the same states (executable tests)
 #guard (runPatch ob sB).1 == 0
 #guard (runPatch ob sB).2.fs.lookup name == some (.file (str "hello\n") 0o644)
@@ -342,17 +460,14 @@ end Instance
 /-! ### the side conditions, evaluated (executable tests) -/
 namespace Scope
 open PatchModel.C01Create.NewInstance (name pname new sB o)
-open PatchModel.C18RunCreate.Instance (ob orig)
+open PatchModel.C18RunCreate.Instance (ob orig sTaken sLink)
 
 -- `hfree`, a regular FILE already at the backup name: it is unlinked first (`make_way_for`), then the same tree
-def sTaken : DState := { fs := { nodes := [(pname, .file (newFileBareText name new) 0o644), (orig, .file [120] 0o600)] } }
 #guard (runPatch ob sTaken).1 == 0 && (runPatch ob sTaken).2.fs.lookup orig == some (.file [] 0o644) &&
   (runPatch ob sTaken).2.fs.lookup name == some (.file (str "hello\n") 0o644)
 #guard (runPatch ob sTaken).2.trace ==
   [.tmpCreate, .tmpUnlink, .tmpCreate, .tmpUnlink, .unlink orig, .creat orig, .creat name, .write name (str "hello\n")]
 -- `hfree`, a symbolic LINK at the backup name: unlinked, what it pointed to keeps its bytes
-def sLink : DState :=
-  { fs := { nodes := [(pname, .file (newFileBareText name new) 0o644), (orig, .symlink (str "v")), (str "v", .file [120] 0o600)] } }
 #guard (runPatch ob sLink).1 == 0 && (runPatch ob sLink).2.fs.lookup orig == some (.file [] 0o644) &&
   (runPatch ob sLink).2.fs.lookup (str "v") == some (.file [120] 0o600)
 -- `hfree`, a DIRECTORY at the backup name: `creat` fails — exit status 2, nothing at `n`
